@@ -72,7 +72,7 @@ pub fn package_a() -> PackageDefinition {
     x.functions = vec![("new", false), ("make", false), ("act_f", false), ("init", true), ("act", true), ("noop", true)];
     let mut y = BpSpec::new("Y");
     y.fields = 2;
-    y.functions = vec![("new", false), ("make", false), ("noop", true)];
+    y.functions = vec![("new", false), ("make", false), ("act", true), ("noop", true)];
     package_definition(&[x, y])
 }
 pub fn package_b() -> PackageDefinition {
@@ -89,7 +89,7 @@ pub fn package_b() -> PackageDefinition {
 }
 pub fn package_d() -> PackageDefinition {
     let mut d = BpSpec::new("Drv");
-    d.functions = vec![("drive", false)];
+    d.functions = vec![("drive", false), ("relay", false)];
     package_definition(&[d])
 }
 
@@ -107,7 +107,8 @@ fn globalize_simple<Y: SystemApi<RuntimeError>>(api: &mut Y, node: NodeId, res: 
 }
 
 /// arguments handed from the driver to the actor: (owned nodes, referenced nodes)
-type ActArgs = (Vec<Own>, Vec<Reference>);
+/// plus the global addresses the next frames need to see
+type ActArgs = (Vec<Own>, Vec<Reference>, Vec<GlobalAddress>);
 
 pub fn invoke<Y: SystemApi<RuntimeError> + KernelNodeApi + KernelSubstateApi<SystemLockData>>(
     export: &str,
@@ -153,7 +154,7 @@ pub fn invoke<Y: SystemApi<RuntimeError> + KernelNodeApi + KernelSubstateApi<Sys
         }
         "X::noop" | "Y::noop" | "Outer::noop" | "Inner::noop" => unit(),
         // ---- actors
-        "X::act_f" | "X::act" | "Outer::act_f" | "Outer::act" | "Inner::act" => {
+        "X::act_f" | "X::act" | "Y::act" | "Outer::act_f" | "Outer::act" | "Inner::act" => {
             let args: ActArgs = input.as_typed().expect("harness: actor args");
             let r = catch_act(api, &args);
             record(r);
@@ -167,6 +168,12 @@ pub fn invoke<Y: SystemApi<RuntimeError> + KernelNodeApi + KernelSubstateApi<Sys
             let r = api.call_method(&inner.0, "act", scrypto_encode(&args).unwrap());
             api.field_close(h)?;
             r?;
+            unit()
+        }
+        // one more frame between the driver and the actor (a node that is moved twice)
+        "Drv::relay" => {
+            let args: ActArgs = input.as_typed().expect("harness: actor args");
+            call_actor(api, scrypto_encode(&args).unwrap())?;
             unit()
         }
         // ---- the foreign driver
@@ -188,9 +195,9 @@ pub fn invoke<Y: SystemApi<RuntimeError> + KernelNodeApi + KernelSubstateApi<Sys
 
 fn drive<Y: SystemApi<RuntimeError> + KernelNodeApi + KernelSubstateApi<SystemLockData>>(api: &mut Y) -> Result<(), RuntimeError> {
     let k = known();
-    let (actor, target, how) = EST.with(|s| {
+    let (target, how) = EST.with(|s| {
         let s = s.borrow();
-        (s.actor.clone(), s.target.clone(), s.how.clone())
+        (s.target.clone(), s.how.clone())
     });
     let (a, b) = (k.pkg_a.unwrap(), k.pkg_b.unwrap());
     let own_of = |v: Vec<u8>| -> NodeId { scrypto_decode::<Own>(&v).unwrap().0 };
@@ -223,22 +230,39 @@ fn drive<Y: SystemApi<RuntimeError> + KernelNodeApi + KernelSubstateApi<SystemLo
         t => panic!("harness: unknown target {}", t),
     };
     // 2. hand it to the actor
+    let vis: Vec<GlobalAddress> = vec![a.into(), b.into(), k.pkg_d.unwrap().into(), k.x1.unwrap().into(), k.y1.unwrap().into(),
+                                       k.o1.unwrap().into(), k.o2.unwrap().into(), XRD.into()];
     let args: ActArgs = match (node, how.as_str()) {
-        (None, _) => (vec![], vec![]),
-        (Some(n), "own") => (vec![Own(n)], vec![]),
-        (Some(n), "ref") => (vec![], vec![Reference(n)]),
+        (None, _) => (vec![], vec![], vis),
+        (Some(n), "own") | (Some(n), "own2") => (vec![Own(n)], vec![], vis),
+        (Some(n), "ref") => (vec![], vec![Reference(n)], vis),
         (_, h) => panic!("harness: unknown how {}", h),
     };
     let enc = scrypto_encode(&args).unwrap();
+    if how == "own2" {
+        api.call_function(k.pkg_d.unwrap(), "Drv", "relay", enc)?;
+    } else {
+        call_actor(api, enc)?;
+    }
+    let _ = keep;
+    Ok(())
+}
+
+fn call_actor<Y: SystemApi<RuntimeError>>(api: &mut Y, enc: Vec<u8>) -> Result<(), RuntimeError> {
+    let k = known();
+    let actor = EST.with(|s| s.borrow().actor.clone());
+    let (a, b) = (k.pkg_a.unwrap(), k.pkg_b.unwrap());
     match actor.as_str() {
         "AXf" => api.call_function(a, "X", "act_f", enc)?,
         "AXm" => api.call_method(k.x1.unwrap().as_node_id(), "act", enc)?,
+        "AYm" => api.call_method(k.y1.unwrap().as_node_id(), "act", enc)?,
         "BOf" => api.call_function(b, "Outer", "act_f", enc)?,
         "BOm" => api.call_method(k.o1.unwrap().as_node_id(), "act", enc)?,
+        "BOm2" => api.call_method(k.o2.unwrap().as_node_id(), "act", enc)?,
         "BIm" => api.call_method(k.o1.unwrap().as_node_id(), "act_inner", enc)?,
+        "BIm2" => api.call_method(k.o2.unwrap().as_node_id(), "act_inner", enc)?,
         x => panic!("harness: unknown actor {}", x),
     };
-    let _ = keep;
     Ok(())
 }
 
@@ -375,7 +399,7 @@ impl Bench {
         });
         // every address the driver and the actors use is handed in, so that it is visible to their frames
         let visible: Vec<GlobalAddress> = vec![
-            k.pkg_a.unwrap().into(), k.pkg_b.unwrap().into(), k.x1.unwrap().into(), k.y1.unwrap().into(),
+            k.pkg_a.unwrap().into(), k.pkg_b.unwrap().into(), k.pkg_d.unwrap().into(), k.x1.unwrap().into(), k.y1.unwrap().into(),
             k.o1.unwrap().into(), k.o2.unwrap().into(), FAUCET.into(), XRD.into(),
         ];
         let manifest = ManifestBuilder::new().lock_fee_from_faucet().call_function(k.pkg_d.unwrap(), "Drv", "drive", (visible,)).build();
